@@ -132,7 +132,7 @@ func vfC15RunLoad(c *vt.Ctx, s vfC15LoadScenario) {
 	_ = l.Priority()
 }
 
-func TestVerifC15LocalLoad(t *testing.T) { vt.Run(t, vfC15GenLoad, vfC15RunLoad) }
+func TestVerifC15LocalLoad(t *testing.T) { vt.Run(t, vfC15GenLoad, g.NoPanic(vfC15RunLoad)) }
 
 // Deterministic witness, printed only while the finding is listed as open.
 func TestVerifC15KnownWitnessRecordNilPodInfo(t *testing.T) {
